@@ -7,7 +7,7 @@
 //! O: (1) no request arrives at the peer while an earlier caller is parked waiting for its reply;
 //!    (2) every caller's result carries its own request's identity, nobody gets Err; (3) all finish.
 
-use std::os::unix::io::AsRawFd;
+use std::os::unix::io::{AsRawFd, RawFd};
 use std::os::unix::net::UnixStream;
 use std::sync::atomic::{AtomicBool, Ordering};
 use std::sync::{Arc, Mutex};
@@ -245,10 +245,26 @@ impl Peer {
         while self.answered < self.frames.len() {
             let f = self.frames[self.answered].clone();
             if let Some(a) = answer(ep, &f, &mut self.gpu_seq) {
-                let _ = rawpeer::send_all(self.sock.as_raw_fd(), &a, &[]);
+                send_answer(self.sock.as_raw_fd(), &a, &[], self.answered as u64);
             }
             self.answered += 1;
         }
+    }
+}
+
+/// The peer's way of writing an answer: every third one in two pieces (at the header/body boundary or in the middle
+/// of the body, as libvhost-user and character-device front ends do), with the descriptors on the first piece.
+fn send_answer(sock: RawFd, bytes: &[u8], fds: &[RawFd], n: u64) {
+    if n % 3 == 1 && bytes.len() > 13 {
+        let at = if n % 2 == 0 { 12 } else { 12 + (bytes.len() - 12) / 2 };
+        let _ = rawpeer::send_all(sock, &bytes[..at], fds);
+        for _ in 0..20 {
+            std::thread::yield_now();
+        }
+        std::thread::sleep(Duration::from_micros(30));
+        let _ = rawpeer::send_all(sock, &bytes[at..], &[]);
+    } else {
+        let _ = rawpeer::send_all(sock, bytes, fds);
     }
 }
 
@@ -654,7 +670,7 @@ pub fn run_all_ops_stress(ctx: &mut Ctx, c: &AllOpsCase) -> Result<(), String> {
                 if let Some((bytes, nfds)) = answer_any_fe(&fr, &mut seq) {
                     let fds = crate::srv::fresh_fds(nfds, crate::fdtrack::FdKind::Memfd);
                     let raw: Vec<std::os::fd::RawFd> = fds.iter().map(|x| x.as_raw_fd()).collect();
-                    let _ = rawpeer::send_all(peer.sock.as_raw_fd(), &bytes, &raw);
+                    send_answer(peer.sock.as_raw_fd(), &bytes, &raw, seq);
                 }
                 peer.answered += 1;
             }
